@@ -1634,4 +1634,293 @@ theorem closureLoop_terminates (g : GsubT) (reachable : List Nat) (fuelI : Nat)
             exact ⟨a, b, fun g hg => c3 g (hsub1 g hg), Nat.le_trans hmono1 d, e⟩
 
 
+/-! ## readers -/
+
+theorem rd16_ok {d : List Nat} {p v : Nat} (h : rd16 d p = .ok v) : v = beAt d p 2 ∧ p + 2 ≤ d.length := by
+  unfold rd16 readAt checkedAdd at h
+  by_cases h1 : p + 2 ≤ MAXU
+  · simp only [h1, if_true] at h
+    by_cases h2 : p + 2 ≤ d.length
+    · simp only [h2, if_true] at h
+      injection h with h
+      exact ⟨h.symm, h2⟩
+    · simp [h2] at h
+  · simp [h1] at h
+
+theorem need_ok {d : List Nat} {p n : Nat} {u : Unit} (h : need d p n = .ok u) : p + n ≤ d.length := by
+  unfold need at h
+  by_cases h1 : p + n ≤ d.length
+  · exact h1
+  · simp [h1] at h
+
+
+/-! ## `collect_features` -/
+
+theorem indexForTag_lt {tags : List Nat} {t i : Nat} (h : indexForTag tags t = some i) : i < tags.length := by
+  unfold indexForTag at h
+  cases hb : binarySearchBy tags.length (fun i => natCmp (tags.getD i 0) t) with
+  | err j => rw [hb] at h; cases h
+  | ok j =>
+    rw [hb] at h
+    injection h with h
+    have := (bs_ok hb).1
+    have := Nat.mod_le j 65536
+    omega
+
+/-- invariant of `CollectFeaturesContext`: the counters stay below their limits + 1 (so the `u16`
+increments cannot overflow), results and filter are indices of wanted features -/
+def CFInv (F0 : List Nat) (c : CF) : Prop :=
+  c.scriptCount ≤ 501 ∧ c.langsysCount ≤ 2001 ∧ (∀ i ∈ c.out, i ∈ F0) ∧ (∀ i ∈ c.filter, i ∈ F0)
+
+theorem visitedStep_val (count : Nat) (visited : List Nat) (max head pos : Nat) (hc : count ≤ max + 1) (hm : max + 2 ≤ 65536) :
+    ∃ b n v, visitedStep count visited max head (head + pos) = .val (b, n, v) ∧ n ≤ max + 1 := by
+  unfold visitedStep
+  by_cases h : count > max
+  · exact ⟨true, count, visited, by simp [h], hc⟩
+  · simp only [h, if_false, inc16, subTrap]
+    have h1 : count + 1 < 65536 := by omega
+    have h2 : head ≤ head + pos := by omega
+    simp only [h1, h2, if_true, Res.bind]
+    exact ⟨_, _, _, rfl, by omega⟩
+
+theorem limitExceeded_inv (F0 : List Nat) (c : CF) (n : Nat) (h : CFInv F0 c) : CFInv F0 (limitExceeded c n).2 := by
+  unfold limitExceeded
+  simp only []
+  split <;> exact h
+
+theorem limitExceeded_fields (c : CF) (n : Nat) :
+    (limitExceeded c n).2.out = c.out ∧ (limitExceeded c n).2.filter = c.filter := by
+  unfold limitExceeded
+  simp only []
+  split <;> exact ⟨rfl, rfl⟩
+
+theorem langFeatures_inv (F0 : List Nat) : ∀ (idxs : List Nat) (c : CF), CFInv F0 c → CFInv F0 (langFeatures c idxs) := by
+  intro idxs
+  induction idxs with
+  | nil => intro c h; exact h
+  | cons idx rest ih =>
+    intro c h
+    unfold langFeatures
+    split
+    · rename_i hc
+      apply ih
+      refine ⟨h.1, h.2.1, ?_, ?_⟩
+      · intro i hi
+        simp only [] at hi
+        rcases (mem_insertUniq idx i c.out).mp hi with rfl | hi
+        · exact h.2.2.2 _ (by simpa using hc)
+        · exact h.2.2.1 i hi
+      · intro i hi
+        simp only [List.mem_filter] at hi
+        exact h.2.2.2 i hi.1
+    · exact ih c h
+
+theorem requiredStep_inv (F0 : List Nat) (c : CF) (req : Nat) (h : CFInv F0 c) : CFInv F0 (requiredStep c req) := by
+  unfold requiredStep
+  by_cases hr : req ≠ 65535
+  · rw [if_pos hr]
+    have hl := limitExceeded_inv F0 c 1 h
+    simp only []
+    by_cases hcond : (!(limitExceeded c 1).1 && (limitExceeded c 1).2.filter.contains req) = true
+    · rw [if_pos hcond]
+      simp only [Bool.and_eq_true] at hcond
+      refine ⟨hl.1, hl.2.1, ?_, hl.2.2.2⟩
+      intro i hi
+      simp only [] at hi
+      rcases (mem_insertUniq _ i _).mp hi with rfl | hi
+      · exact hl.2.2.2 _ (by simpa using hcond.2)
+      · exact hl.2.2.1 i hi
+    · rw [if_neg hcond]; exact hl
+  · rw [if_neg hr]; exact h
+
+theorem langSysBody_inv (F0 : List Nat) (c : CF) (ls : LangSysT) (h : CFInv F0 c) : CFInv F0 (langSysBody c ls) := by
+  unfold langSysBody
+  simp only []
+  have h2 := limitExceeded_inv F0 _ ls.features.length (requiredStep_inv F0 c ls.required h)
+  split
+  · exact h2
+  · exact langFeatures_inv F0 _ _ h2
+
+theorem langSysCollect_val (F0 : List Nat) (head : Nat) (c : CF) (ls : LangSysT) (h : CFInv F0 c) :
+    ∃ c', langSysCollect head c ls = .val c' ∧ CFInv F0 c' := by
+  unfold langSysCollect
+  obtain ⟨b, n, v, hv, hn⟩ := visitedStep_val c.langsysCount c.visitedLangsys 2000 head ls.pos h.2.1 (by omega)
+  rw [hv]
+  simp only [Res.bind]
+  have h1 : CFInv F0 { c with langsysCount := n, visitedLangsys := v } := ⟨h.1, hn, h.2.2.1, h.2.2.2⟩
+  split
+  · exact ⟨_, rfl, h1⟩
+  · split
+    · exact ⟨_, rfl, h1⟩
+    · exact ⟨_, rfl, langSysBody_inv F0 _ ls h1⟩
+
+/-- a `Result` step is safe: no panic; `Ok` keeps the invariant -/
+def RSafe (F0 : List Nat) : RR CF → Prop
+  | .trap => False
+  | .val (.error _) => True
+  | .val (.ok c) => CFInv F0 c
+
+theorem scriptLangsInv_safe (F0 : List Nat) (head : Nat) (languages : TagSet) :
+    ∀ (recs : List (Nat × PR LangSysT)) (c : CF), CFInv F0 c → RSafe F0 (scriptLangsInv head languages c recs) := by
+  intro recs
+  induction recs with
+  | nil => intro c h; exact h
+  | cons p rest ih =>
+    intro c h
+    obtain ⟨tag, r⟩ := p
+    unfold scriptLangsInv
+    split
+    · exact ih c h
+    · cases r with
+      | error e => trivial
+      | ok ls =>
+        obtain ⟨c', hc', hi⟩ := langSysCollect_val F0 head c ls h
+        simp only [hc', Res.bind]
+        exact ih c' hi
+
+theorem scriptLangsSel_safe (F0 : List Nat) (head : Nat) (recs : List (Nat × PR LangSysT)) :
+    ∀ (tags : List Nat) (c : CF), CFInv F0 c → RSafe F0 (scriptLangsSel head recs c tags) := by
+  intro tags
+  induction tags with
+  | nil => intro c h; exact h
+  | cons tag rest ih =>
+    intro c h
+    unfold scriptLangsSel
+    cases hx : indexForTag (recs.map (·.1)) tag with
+    | none => exact ih c h
+    | some idx =>
+      simp only []
+      have hlt := indexForTag_lt hx
+      simp only [List.length_map] at hlt
+      rw [List.getElem?_eq_getElem hlt]
+      generalize recs[idx] = e
+      obtain ⟨t, r⟩ := e
+      cases r with
+      | error e => trivial
+      | ok ls =>
+        obtain ⟨c', hc', hi⟩ := langSysCollect_val F0 head c ls h
+        simp only [hc', Res.bind]
+        exact ih c' hi
+
+theorem scriptCollect_safe (F0 : List Nat) (head : Nat) (languages : TagSet) (c : CF) (s : ScriptT) (h : CFInv F0 c) :
+    RSafe F0 (scriptCollect head languages c s) := by
+  unfold scriptCollect
+  obtain ⟨b, n, v, hv, hn⟩ := visitedStep_val c.scriptCount c.visitedScript 500 head s.pos h.1 (by omega)
+  rw [hv]
+  simp only [Res.bind]
+  have h1 : CFInv F0 { c with scriptCount := n, visitedScript := v } := ⟨hn, h.2.1, h.2.2.1, h.2.2.2⟩
+  split
+  · exact h1
+  · cases hd : s.dflt with
+    | none =>
+      simp only []
+      split
+      · exact scriptLangsInv_safe F0 head languages _ _ h1
+      · exact scriptLangsSel_safe F0 head _ _ _ h1
+    | some r =>
+      cases r with
+      | error e => trivial
+      | ok ls =>
+        obtain ⟨c', hc', hi⟩ := langSysCollect_val F0 head _ ls h1
+        simp only [hc', Res.bind]
+        split
+        · exact scriptLangsInv_safe F0 head languages _ _ hi
+        · exact scriptLangsSel_safe F0 head _ _ _ hi
+
+theorem scriptsInv_safe (F0 : List Nat) (head : Nat) (scripts languages : TagSet) :
+    ∀ (recs : List (Nat × PR ScriptT)) (c : CF), CFInv F0 c → RSafe F0 (scriptsInv head scripts languages c recs) := by
+  intro recs
+  induction recs with
+  | nil => intro c h; exact h
+  | cons p rest ih =>
+    intro c h
+    obtain ⟨tag, r⟩ := p
+    unfold scriptsInv
+    split
+    · exact ih c h
+    · cases r with
+      | error e => trivial
+      | ok s =>
+        have hs := scriptCollect_safe F0 head languages c s h
+        simp only []
+        cases hr : scriptCollect head languages c s with
+        | trap => rw [hr] at hs; exact hs
+        | val x =>
+          rw [hr] at hs
+          simp only [Res.bind]
+          cases x with
+          | error e => trivial
+          | ok c' => exact ih c' hs
+
+theorem scriptsSel_safe (F0 : List Nat) (head : Nat) (languages : TagSet) (recs : List (Nat × PR ScriptT)) :
+    ∀ (tags : List Nat) (c : CF), CFInv F0 c → RSafe F0 (scriptsSel head languages recs c tags) := by
+  intro tags
+  induction tags with
+  | nil => intro c h; exact h
+  | cons tag rest ih =>
+    intro c h
+    unfold scriptsSel
+    cases hx : indexForTag (recs.map (·.1)) tag with
+    | none => exact ih c h
+    | some idx =>
+      simp only []
+      have hlt := indexForTag_lt hx
+      simp only [List.length_map] at hlt
+      rw [List.getElem?_eq_getElem hlt]
+      generalize recs[idx] = e
+      obtain ⟨t, r⟩ := e
+      cases r with
+      | error e => trivial
+      | ok s =>
+        have hs := scriptCollect_safe F0 head languages c s h
+        simp only []
+        cases hr : scriptCollect head languages c s with
+        | trap => rw [hr] at hs; exact hs
+        | val x =>
+          rw [hr] at hs
+          simp only [Res.bind]
+          cases x with
+          | error e => trivial
+          | ok c' => exact ih c' hs
+
+/-- the initial filter of `CollectFeaturesContext::new` -/
+def filter0 (featureTags : List Nat) (features : TagSet) : List Nat :=
+  (((List.range featureTags.length).zip featureTags).filterMap (fun p =>
+    if features.contains p.2 then some (p.1 % 65536) else none)).foldl (fun s x => insertUniq x s) []
+
+theorem mem_foldl_insertUniq : ∀ (xs s : List Nat) (y : Nat), y ∈ xs.foldl (fun s x => insertUniq x s) s → y ∈ xs ∨ y ∈ s := by
+  intro xs
+  induction xs with
+  | nil => intro s y h; exact Or.inr h
+  | cons x rest ih =>
+    intro s y h
+    simp only [List.foldl_cons] at h
+    rcases ih _ y h with h | h
+    · exact Or.inl (by simp [h])
+    · rcases (mem_insertUniq x y s).mp h with rfl | h
+      · exact Or.inl (by simp)
+      · exact Or.inr h
+
+theorem filter0_lt (featureTags : List Nat) (features : TagSet) (i : Nat) (h : i ∈ filter0 featureTags features) :
+    ∃ j, j < featureTags.length ∧ i = j % 65536 ∧ features.contains (featureTags.getD j 0) = true := by
+  unfold filter0 at h
+  rcases mem_foldl_insertUniq _ _ _ h with h | h
+  · simp only [List.mem_filterMap] at h
+    obtain ⟨p, hp, hi⟩ := h
+    by_cases hc : features.contains p.2 = true
+    · simp only [hc, if_true, Option.some.injEq] at hi
+      have hz := List.of_mem_zip hp
+      have hlt : p.1 < featureTags.length := by simpa using hz.1
+      obtain ⟨k, hk, hke⟩ := List.getElem_of_mem hp
+      simp only [List.getElem_zip, List.getElem_range] at hke
+      refine ⟨p.1, hlt, hi.symm, ?_⟩
+      have : featureTags.getD p.1 0 = p.2 := by
+        rw [← hke]
+        simp only [List.length_zip, List.length_range, Nat.min_self] at hk
+        simp [List.getD, List.getElem?_eq_getElem hk]
+      rw [this]; exact hc
+    · simp [hc] at hi
+  · simp at h
+
+
 end FontVerif.HandLayout
